@@ -17,6 +17,7 @@ for h in harness/*/; do
   h=$(basename "$h")
   kind=base
   [ -f "harness/$h/OVERLAY" ] && kind=$(cat "harness/$h/OVERLAY")
+  [ -f "harness/$h/gen.py" ] && (cd "harness/$h" && python3 gen.py quick zz_gen_types.go >/dev/null)
   go build -overlay "$S/$kind/overlay.json" -o "$S/bin-$h" "./harness/$h" || { echo "setup: building harness $h failed" >&2; exit 1; }
 done
 echo "setup ok"
